@@ -97,6 +97,8 @@ Record policy_ok (p u : option hdr) : Prop := {
    or "JWT"); cty / url / nonce when given; the custom map as given. ---- *)
 Record sigopts := { so_attach_jwk : bool; so_b64 : option bool; so_cty : bool; so_url : bool; so_nonce : bool;
                     so_custom : option (list Z); so_detached : bool }.
+(* JwkDocumentExt::create_credential_jwt / create_presentation_jwt refuse a detached payload and b64 = false before anything is signed *)
+Definition jwt_opts_ok (o : sigopts) : bool := negb (so_detached o) && match so_b64 o with Some false => false | _ => true end.
 Definition create_jws_header (o : sigopts) : hdr :=
   {| h_alg := true;
      h_b64 := match so_b64 o with Some false => Some false | _ => None end;
